@@ -13,6 +13,10 @@ try:
     for st in ("MCM6502Self",):
         r = common.run_tlc(st, workers=1, heap="2g", name="self_" + st)
         common.require_ok(r, st)
+    p = subprocess.run([sys.executable, os.path.join(os.path.dirname(os.path.abspath(__file__)), "selftest.py")], stdout=subprocess.PIPE, stderr=subprocess.STDOUT, text=True)
+    print("\n".join(l for l in p.stdout.splitlines() if l.startswith(("selftest", "SELFTEST"))))
+    if p.returncode != 0:
+        raise common.ToolError("self-tests failed")
     print("setup ok")
 except common.ToolError as e:
     print("SETUP FAILED:", e); sys.exit(2)
